@@ -63,9 +63,18 @@
    Refusals: RefusalsChangeNothing (RuntimeError refusals leave elevations, densities, temperatures and bounds as
    they were; the persisted target names may be filled in).
 
+   TOP BLOCK AND THE CHANGER'S MODE (design dimensions A.top, A.det).  axiallyExpandAssembly treats the LAST block as the
+   one that absorbs the change, whatever its flags (isDummyBlock = ib == numOfBlocks - 1): its solids are not expanded,
+   its top stays, height := top - bottom ("artificially chopped to preserve the assembly height").  A.top = "" is the
+   fluid-only block flagged DUMMY of the statement; A.top = <block type> is an ordinary block on top (it gets a target
+   component like any block, which is never used).  _isTopDummyBlockPresent: a top block not flagged DUMMY only warns,
+   but with AxialExpansionChanger(detailedAxialExpansion=True) (A.det) setAssembly raises RuntimeError -- after the
+   links and the target names have been determined and persisted.  Nothing else depends on the mode: the grid bounds
+   and block locators are rewritten by every completed call in both modes.
+
    NOT MODELLED  AxialExpansionChanger.expandColdDimsToHot / applyColdHeightMassIncrease / manageCoreMesh (core
-   construction and core-wide mesh), assemblies without a top dummy block (the top block is then chopped; refused with
-   detailedAxialExpansion), explicit targets naming a fluid or missing component, radial dimensions (C03).
+   construction and core-wide mesh), explicit targets naming a fluid or missing component, a block flagged DUMMY
+   below the top, radial dimensions (C03).
 
    CONFIGURATIONS (AxialExpansion_mc.tla holds the design sets)
      _mc / _mc_thorough      exhaustive, all invariants above           _deep / _deep_thorough   3..4 calls, growth by powers of 2
@@ -76,7 +85,9 @@
 *)
 EXTENDS RationalX, TLC, Json
 
-CONSTANTS Designs,        \* set of [types |-> <<block type names, bottom-up, without the dummy>>, hs |-> <<heights>>, hd |-> dummy height]
+CONSTANTS Designs,        \* set of [types |-> <<block types below the top block, bottom-up>>, hs |-> <<their heights>>,
+                          \*         top |-> "" (fluid-only DUMMY block) or a block type, hd |-> height of the top block,
+                          \*         det |-> the changer's detailedAxialExpansion flag]
           Growths,        \* growth fractions L1/L0 (rationals) a prescribed call may use
           MaxNonUnit,     \* a prescribed call changes at most this many components (Uniform calls are always explored)
           LevelTriples,   \* thermal fields are 3-step profiles <<l1,l2,l3>> with two break points; {} = no thermal calls
@@ -89,8 +100,8 @@ CONSTANTS Designs,        \* set of [types |-> <<block type names, bottom-up, wi
           MaxLevel
 
 VARIABLES A,              \* the design (static)
-          zb, zt, h,      \* block p.zbottom, p.ztop, p.height               (1..K+1, the last one is the dummy)
-          comp,           \* comp[b][i] = [h, zb, zt, lin, T] of component i of block b  (comp[K+1] = <<>>)
+          zb, zt, h,      \* block p.zbottom, p.ztop, p.height               (1..K+1, the last one is the top block)
+          comp,           \* comp[b][i] = [h, zb, zt, lin, T] of component i of block b  (comp[K+1] = <<>> for a dummy top)
           tname,          \* persisted b.p.axialExpTargetComponent (0 = unset, else component index)
           mesh,           \* assembly.spatialGrid._bounds[2]  (<<>> until the first expansion sets it)
           placed,         \* components carry zbottom/ztop/height attributes (after the first expansion)
@@ -158,12 +169,14 @@ LinkedTy(x, y) == /\ x.solid /\ y.solid
                   /\ x.mult = y.mult
                   /\ x.cls # "Unshaped"
                   /\ IMax2(x.idm, y.idm) < IMin2(x.od, y.od)
-DNames(d, b) == IF b >= 1 /\ b <= Len(d.types) THEN BT[d.types[b]].comps ELSE <<>>   \* the dummy holds only coolant (outside the model)
+DNames(d, b) == IF b >= 1 /\ b <= Len(d.types) THEN BT[d.types[b]].comps
+                ELSE IF b = Len(d.types) + 1 /\ d.top # "" THEN BT[d.top].comps
+                ELSE <<>>                                         \* a dummy top holds only coolant (outside the model)
 DLinks(d, b, i, bb) == {j \in 1..Len(DNames(d, bb)) : LinkedTy(CT[DNames(d, b)[i]], CT[DNames(d, bb)[j]])}
 Pick(S) == IF S = {} THEN 0 ELSE CHOOSE j \in S : TRUE
 StaticOf(d, ex) ==
     LET k == Len(d.types) IN
-    [types |-> d.types, hs |-> d.hs, hd |-> d.hd, k |-> k,
+    [types |-> d.types, hs |-> d.hs, hd |-> d.hd, top |-> d.top, det |-> d.det, k |-> k,
      expl  |-> [b \in 1..(k + 1) |-> IF ex[b] = 0 THEN "" ELSE DNames(d, b)[ex[b]]],   \* blueprint (explicit) target names
      H     |-> SumSeq(d.hs, k) + d.hd,
      ng    |-> (SumSeq(d.hs, k) + d.hd) \div 2,
@@ -172,12 +185,14 @@ StaticOf(d, ex) ==
      mat   |-> [b \in 1..(k + 1) |-> [i \in 1..Len(DNames(d, b)) |-> CT[DNames(d, b)[i]].mat]],
      lower |-> [b \in 1..(k + 1) |-> [i \in 1..Len(DNames(d, b)) |-> Pick(DLinks(d, b, i, b - 1))]],
      upper |-> [b \in 1..(k + 1) |-> [i \in 1..Len(DNames(d, b)) |-> Pick(DLinks(d, b, i, b + 1))]],
-     multi |-> \E b \in 1..k : \E i \in 1..Len(DNames(d, b)) :
+     multi |-> \E b \in 1..(k + 1) : \E i \in 1..Len(DNames(d, b)) :
                   Cardinality(DLinks(d, b, i, b - 1)) > 1 \/ Cardinality(DLinks(d, b, i, b + 1)) > 1]
 
 K         == A.k
 NBk       == K + 1
-BTy(b)    == BT[A.types[b]]
+BTy(b)    == IF b <= A.k THEN BT[A.types[b]] ELSE BT[A.top]
+HInit(b)  == IF b <= A.k THEN A.hs[b] ELSE A.hd
+DummyTop  == A.top = ""
 CNames(b) == A.names[b]
 NC(b)     == Len(A.names[b])
 CTy(b, i) == CT[CNames(b)[i]]
@@ -200,7 +215,7 @@ Determine(b, foi) ==
     IN IF Cardinality(c1) = 1 THEN [t |-> CHOOSE i \in c1 : TRUE, e |-> ""] ELSE [t |-> 0, e |-> "RuntimeError"]
 TargetOfBlock(b, setFuel) ==
     IF tname[b] # 0 THEN [t |-> tname[b], e |-> ""]
-    ELSE IF b = NBk THEN [t |-> 0, e |-> ""]                     \* block flagged DUMMY: no target
+    ELSE IF b = NBk /\ DummyTop THEN [t |-> 0, e |-> ""]         \* block flagged DUMMY: no target
     ELSE LET f == BTy(b).flags IN
          IF "plenum" \in f \/ "aclp" \in f THEN Determine(b, "clad")
          ELSE IF setFuel /\ "fuel" \in f
@@ -211,14 +226,16 @@ TargetOfBlock(b, setFuel) ==
          ELSE Determine(b, "")
 \* setAssembly: links first (nothing persisted when they fail), then targets block by block (names of the blocks
 \* before the first failing one stay persisted)
+Named(b) == tname[b] # 0 \/ (b = NBk /\ DummyTop)
 Prep(setFuel) ==
-    IF \A b \in 1..K : tname[b] # 0 THEN [names |-> tname, e |-> IF MultiLinked THEN "RuntimeError" ELSE ""]
-    ELSE IF MultiLinked THEN [names |-> tname, e |-> "RuntimeError"]
+    IF MultiLinked THEN [names |-> tname, e |-> "RuntimeError"]
     ELSE LET r   == [b \in 1..NBk |-> TargetOfBlock(b, setFuel)]
              bad == {b \in 1..NBk : r[b].e # ""}
              f   == IF bad = {} THEN 0 ELSE Min(bad)
          IN [names |-> [b \in 1..NBk |-> IF f # 0 /\ b >= f THEN tname[b] ELSE r[b].t],
-             e |-> IF f = 0 THEN "" ELSE r[f].e]
+             e |-> IF f # 0 THEN r[f].e
+                   ELSE IF ~DummyTop /\ A.det THEN "RuntimeError"      \* _isTopDummyBlockPresent, after the names are persisted
+                   ELSE ""]
 
 (* ------------------------------------------- dynamics ---------------------------------------------------- *)
 CanCall == ~broken /\ Len(path) + 1 < MaxLevel       \* MaxLevel bounds the exploration (level 1 = no call yet)
@@ -242,7 +259,7 @@ ExpandFrom(b, acc, c0, g, tn) ==
                                         ELSE acc.zt[b - 1]
                              IN [c0[b][i] EXCEPT !.h = chh, !.zb = czb, !.zt = RAdd(czb, chh),
                                                  !.lin = RDiv(@, g[b][i])]
-             cN    == TLCEval([i \in 1..NC(b) |-> NewC(i)])
+             cN    == IF b = NBk THEN c0[b] ELSE TLCEval([i \in 1..NC(b) |-> NewC(i)])      \* the last block is not expanded
              t     == tn[b]
              moved == b <= K /\ t # 0 /\ Solid(b, t)
              ztN   == IF moved THEN cN[t].zt ELSE zt[b]
@@ -355,7 +372,7 @@ ExplChoices(d) ==
 Init == \E d \in Designs : \E ex \in ExplChoices(d) : InitFor(d, ex)
 
 \* setFuel only matters while some block still has no persisted target name
-SetFuelChoices == IF \A b \in 1..K : tname[b] # 0 THEN {TRUE} ELSE BOOLEAN
+SetFuelChoices == IF \A b \in 1..NBk : Named(b) THEN {TRUE} ELSE BOOLEAN
 Next == \/ \E g \in SparseVectors, sf \in SetFuelChoices : Prescribed(g, sf, "sparse")
         \/ \E g \in UniformVectors : Prescribed(g, TRUE, "uniform")
         \/ \E f \in StepFields, fi \in FromInput : Thermal(f, TRUE, fi)
@@ -387,8 +404,8 @@ LinkedStayStacked == (placed /\ ~broken) =>
         /\ c.zt = RAdd(c.zb, c.h)
         /\ c.zb = IF b = 1 THEN RZero ELSE IF Lower(b, i) # 0 THEN comp[b - 1][Lower(b, i)].zt ELSE zt[b - 1]
 DensityDividedByGrowth == Expanded =>
-    \A b \in 1..K : \A i \in 1..NC(b) :
-        comp[b][i].lin = IF Solid(b, i) THEN RDiv(pre.lin[b][i], lg[b][i]) ELSE pre.lin[b][i]
+    \A b \in 1..NBk : \A i \in 1..NC(b) :
+        comp[b][i].lin = IF Solid(b, i) /\ b <= K THEN RDiv(pre.lin[b][i], lg[b][i]) ELSE pre.lin[b][i]
 ComponentHeightIsGrowthTimesBlock == Expanded => \A x \in SolidIx : comp[x[1]][x[2]].h = RMul(lg[x[1]][x[2]], pre.h[x[1]])
 MassAccounting == Expanded =>
     \A x \in SolidIx : LET b == x[1]  i == x[2] IN
@@ -406,8 +423,8 @@ RoundTripRestores ==
         /\ (act.n = "Thermal" /\ ~act.fromInput => \A x \in SolidIx : comp[x[1]][x[2]].T = pre2.T[x[1]][x[2]])
 RefusalsChangeNothing == Refused =>
     /\ zb = pre.zb /\ zt = pre.zt /\ h = pre.h /\ mesh = pre.mesh
-    /\ \A b \in 1..K : \A i \in 1..NC(b) : comp[b][i].lin = pre.lin[b][i]
-    /\ (err = "RuntimeError" => \A b \in 1..K : \A i \in 1..NC(b) : comp[b][i].T = pre.T[b][i])
+    /\ \A b \in 1..NBk : \A i \in 1..NC(b) : comp[b][i].lin = pre.lin[b][i]
+    /\ (err = "RuntimeError" => \A b \in 1..NBk : \A i \in 1..NC(b) : comp[b][i].T = pre.T[b][i])
 \* modelling guard, not a property of armi: a temperature point never coincides with a moving block boundary (a float
 \* comparison zbottom <= z could otherwise differ from the exact one; distinct rationals of this size differ by > 1e-9,
 \* the float error of an elevation is ~1e-15)
@@ -425,14 +442,16 @@ RoundTripAny == (Expanded /\ lg2 # <<>> /\ Len(path) >= 2 /\ InverseGrowth(lg, l
 NameOf(b, i) == IF i = 0 THEN "" ELSE CNames(b)[i]
 \* mass relative to the initial mass; not observed in a half-updated (broken) assembly: the ArithmeticError leaves before
 \* Component.clearCache, so getMass() there mixes the old volume with the new densities
-ObsMass(b, i) == IF broken THEN RZero ELSE RDiv(MassOf(b, i), RInt(A.hs[b]))
+ObsMass(b, i) == IF broken THEN RZero ELSE RDiv(MassOf(b, i), RInt(HInit(b)))
 Sq(x) == RMul(x, x)
 Obs == [zb |-> zb, zt |-> zt, h |-> h, mesh |-> mesh, placed |-> placed, broken |-> broken, err |-> err,
         loc |-> [b \in 1..NBk |-> b - 1],                      \* b.spatialLocator = a.spatialGrid[0, 0, ib]
+        \* axial coordinate of each block's locator in the assembly grid (cell centre of the bounds; unobserved until set)
+        locz |-> IF mesh = <<>> THEN <<>> ELSE [b \in 1..NBk |-> RDiv(RAdd(mesh[b], mesh[b + 1]), RInt(2))],
         total |-> zt[NBk], hsum |-> RSumSeq(h), fluid |-> ROne,
         zmid |-> [b \in 1..NBk |-> RAdd(zb[b], RDiv(h[b], RInt(2)))],
         tname |-> [b \in 1..NBk |-> NameOf(b, tname[b])],
-        comp |-> [b \in 1..K |-> [i \in 1..NC(b) |->
+        comp |-> [b \in 1..NBk |-> [i \in 1..NC(b) |->
                     [name |-> CNames(b)[i], solid |-> Solid(b, i),
                      h |-> comp[b][i].h, zb |-> comp[b][i].zb, zt |-> comp[b][i].zt,
                      lin |-> comp[b][i].lin, T |-> comp[b][i].T,
